@@ -357,6 +357,13 @@ def run(ctx):
         ctx.add_tlc(rs, f"optimisation scheduler: all instances with {nobj} objects, distance pattern {pat}, free environment")
         if rs.invariant:
             ctx.drift.append({"HbondSched_model_violates": rs.invariant})
+    # non-vacuity: if detection could see a contact from one side only, networks overlap and TLC must say so
+    cfgd = os.path.join(ctx.work, "hsdev.cfg")
+    open(cfgd, "w").write(open(os.path.join(core.SPEC, "HbondSched_mc.cfg")).read().replace("Symmetric = TRUE", "Symmetric = FALSE"))
+    rd = core.run_tlc("MC_HbondSched", cfgd, ctx.work, timeout=900, heap="8g", deadlock=True)
+    if rd.invariant != "Disjoint":
+        raise core.MachineryError(f"self-test failed: one-sided contacts do not violate Disjoint in MC_HbondSched ({rd.invariant!r})")
+    ctx.add_tlc(rd, "one-sided contacts deviation: overlapping networks found as required")
     jobs = corpus(ctx, rng)
     res = core.pmap(_job, jobs, chunksize=1)
     hbsched_conformance(ctx, jobs, res)
